@@ -270,7 +270,10 @@ func runShellSel(c *core.Ctx) []core.Obligation {
 		report(cs.name+":three-way", fn, diffs, fmt.Sprintf("rejects exactly for compareBoundary in %v", rejectSet(cs.reject)))
 	}
 	// (4) range iterators: seekTo seeks to target.rangeMin; seekBeyond seeks to target.rangeMax.Next()
-	for _, cs := range []struct{ name, field string; next bool }{{"seekTo", "rangeMin", false}, {"seekBeyond", "rangeMax", true}} {
+	for _, cs := range []struct {
+		name, field string
+		next        bool
+	}{{"seekTo", "rangeMin", false}, {"seekBeyond", "rangeMax", true}} {
 		fn := c.Fn("s2", "rangeIterator", cs.name)
 		var diffs []string
 		if fn != nil {
